@@ -158,11 +158,16 @@ def histories(ctx):
     got = (int(f.current_level), molfacts.observe(f))
     lit2 = molfacts.mol_lit(molfacts.mol_facts(rw, 0))
     key = 'mutated'
-    cases.append((key, 'check_history %s [(5, %s); (5, %s)] %s %s' % (molfacts.opts_lit(o), lit1, lit2, core.zlit(got[0]), molfacts.levels_lit(got[1], got[0]))))
     payloads[key] = {'history': 'run(0, rw); rw.GetAtomWithIdx(2).SetAtomicNum(16); run(0, rw)  [CCO -> CCS, same Python object]'}
     if got != fresh(rw, 0, o):
+        # the recorded defect; its exact outcome (the stale tables' result) is what the object model predicts: that comparison is
+        # added as a case, so any OTHER wrong result is reported without the key by compare_cases
+        cases.append((key, 'check_history %s [(5, %s); (5, %s)] %s %s' % (molfacts.opts_lit(o), lit1, lit2, core.zlit(got[0]), molfacts.levels_lit(got[1], got[0]))))
         ctx.fail('molecule object edited in place between two runs is fingerprinted with stale molecule-level tables', payloads[key],
                  finding_key='C04:mol-mutated-in-place')
+    else:
+        ctx.notes.append('the recorded finding C04:mol-mutated-in-place does not reproduce on this tree: the edited molecule is fingerprinted like a fresh one (property-correct); '
+                         'the model case that predicts the stale result is not evaluated')
     ctx.sample({'history_case': payloads[cases[0][0]]} if cases else {})
     core.coq_make(['theories/Exec/RunM1.vo'])
     found |= core.compare_cases(ctx, cases, m1lib.IMPORTS, 'C04 object histories (model state machine vs implementation)', payloads, shard=2) > 0
